@@ -121,6 +121,9 @@ Definition g_F9_query (L : lreq) (q : query) : bool :=
   | _ => false
   end.
 
+(** C13-F11: a request with a query string that Envoy conveys the documented way (query inside [path]) *)
+Definition g_F11 (L : lreq) : bool := l_qpath L && nonempty (l_query L).
+
 (* ------------------------------------------------------------------ well-formed logical requests *)
 
 (** what net/http accepts and the harness's encoding conventions: header names are tokens, no Host
@@ -475,12 +478,60 @@ Qed.
 Lemma nonempty_slash s : starts_with_slash s = true -> nonempty s = true.
 Proof. destruct s; [discriminate | reflexivity]. Qed.
 
-(** C13: rule lookup sees the same thing at all entry points *)
-Theorem same_lookup fixed_F4 L :
-  wf_lreqb L = true -> lookup_of (build_http L) = lookup_of (build_envoy fixed_F4 (mk_envoy L)).
+(** what grpcv3 builds the view from, outside the guard of C13-F11: the path and the query of the request *)
+Definition envoy_built (fixed_F4 : bool) (L : lreq) : rview :=
+  {| rv_method := l_method L; rv_scheme := scheme_of L; rv_host := l_host L;
+     rv_path := if fixed_F4 then GoUrl.unescape_or_empty (l_rawpath L) else l_rawpath L;
+     rv_rawpath := if fixed_F4 then l_rawpath L else "";
+     rv_query := l_query L; rv_caps := None; rv_ips := [l_peer L] |}.
+
+Lemma has_qmark_valid s : GoUrl.valid_encoded s = true -> has_qmark s = false.
 Proof.
-  intro W. rewrite build_http_wf by exact W. destruct (wf_parts L W) as (_ & _ & _ & Hs & _).
-  unfold lookup_of, build_envoy, mk_envoy. destruct fixed_F4; cbn; rewrite (nonempty_slash _ Hs); reflexivity.
+  induction s as [|c r IH]; [reflexivity|]. cbn [GoUrl.valid_encoded has_qmark]. intro H.
+  apply andb_true_iff in H as [Hc Hr]. rewrite (IH Hr), orb_false_r.
+  destruct (Ascii.eqb c "?") eqn:E; [|reflexivity].
+  apply Ascii.eqb_eq in E. subst c. vm_compute in Hc. discriminate.
+Qed.
+
+Lemma has_qmark_app p q : has_qmark (p ++ String "?" q) = true.
+Proof. induction p as [|c r IH]; cbn [append has_qmark]; [reflexivity|]. rewrite IH. apply orb_true_r. Qed.
+
+Lemma cut_on_qmark_app0 p q : GoUrl.valid_encoded p = true -> GoUrl.cut_on "?" (p ++ String "?" q) = (p, q).
+Proof.
+  induction p as [|c r IH]; [reflexivity|]. cbn [GoUrl.valid_encoded append GoUrl.cut_on]. intro H.
+  apply andb_true_iff in H as [Hc Hr].
+  destruct (Ascii.eqb c "?") eqn:E.
+  - apply Ascii.eqb_eq in E. subst c. vm_compute in Hc. discriminate.
+  - rewrite (IH Hr). reflexivity.
+Qed.
+
+Lemma build_envoy_wf fixed4 fixed11 L :
+  wf_lreqb L = true -> fixed11 || negb (g_F11 L) = true ->
+  build_envoy fixed4 (norm_envoy fixed11 (mk_envoy L)) = envoy_built fixed4 L.
+Proof.
+  intros W G. destruct (wf_parts L W) as (_ & _ & _ & Hs & Hv & _).
+  unfold g_F11 in G. unfold norm_envoy, mk_envoy. cbn [e_path e_query].
+  assert (A : forall x : string, x ++ "" = x) by (intro x; induction x as [|c r IH]; [reflexivity | cbn; rewrite IH; reflexivity]).
+  destruct (l_qpath L) eqn:Qp.
+  - destruct (nonempty (l_query L)) eqn:Nq.
+    + (* documented shape with a query: only the repaired code gets here *)
+      cbn [andb negb] in G. rewrite orb_false_r in G. subst fixed11.
+      cbn [append]. rewrite has_qmark_app. cbn [andb]. rewrite (cut_on_qmark_app0 _ _ Hv).
+      unfold build_envoy, envoy_built. cbn. reflexivity.
+    + assert (Q : l_query L = "") by (unfold nonempty in Nq; apply negb_false_iff, String.eqb_eq in Nq; exact Nq).
+      rewrite A, (has_qmark_valid _ Hv), andb_false_r.
+      unfold build_envoy, envoy_built. cbn. rewrite Q. reflexivity.
+  - rewrite (has_qmark_valid _ Hv), andb_false_r. unfold build_envoy, envoy_built. cbn. reflexivity.
+Qed.
+
+(** C13: rule lookup sees the same thing at all entry points *)
+Theorem same_lookup fixed_F4 fixed_F11 L :
+  wf_lreqb L = true -> fixed_F11 || negb (g_F11 L) = true ->
+  lookup_of (build_http L) = lookup_of (build_envoy fixed_F4 (norm_envoy fixed_F11 (mk_envoy L))).
+Proof.
+  intros W G. rewrite build_http_wf by exact W. rewrite (build_envoy_wf _ _ _ W G).
+  destruct (wf_parts L W) as (_ & _ & _ & Hs & _).
+  unfold lookup_of, envoy_built. destruct fixed_F4; cbn; rewrite (nonempty_slash _ Hs); reflexivity.
 Qed.
 
 (* ------------------------------------------------------------------ cookies: the two readers agree on plain Cookie lines *)
@@ -811,17 +862,18 @@ Section Agree.
     destruct (contains_encoded_slash (l_rawpath L)); reflexivity.
   Qed.
 
-  Lemma mech_view_envoy fixed1 fixed4 L rl caps :
-    find (lookup_of (build_envoy fixed4 (mk_envoy L))) = Some (rl, caps) ->
-    mech_view find fixed1 (build_envoy fixed4 (mk_envoy L)) =
+  Lemma mech_view_envoy fixed1 fixed4 fixed11 L rl caps :
+    wf_lreqb L = true -> fixed11 || negb (g_F11 L) = true ->
+    find (lookup_of (build_envoy fixed4 (norm_envoy fixed11 (mk_envoy L)))) = Some (rl, caps) ->
+    mech_view find fixed1 (build_envoy fixed4 (norm_envoy fixed11 (mk_envoy L))) =
     if fixed4 && g_F4_decision (r_slashes rl) L then inl EArgument
     else inr (rl, envoy_mech fixed1 fixed4 L (r_slashes rl) caps).
   Proof.
+    intros W G11. rewrite (build_envoy_wf _ _ _ W G11).
     intros F. unfold mech_view. rewrite F.
-    unfold g_F4_decision, slash_switch, set_caps, unescape_caps, envoy_mech, unesc_caps, build_envoy, mk_envoy, is_on.
+    unfold g_F4_decision, slash_switch, set_caps, unescape_caps, envoy_mech, unesc_caps, envoy_built, is_on.
     destruct fixed1, fixed4; destruct (r_slashes rl);
-      cbn [rv_method rv_scheme rv_host rv_path rv_rawpath rv_query rv_caps rv_ips option_map
-           e_method e_scheme e_host e_path e_query e_xff andb]; try reflexivity;
+      cbn [rv_method rv_scheme rv_host rv_path rv_rawpath rv_query rv_caps rv_ips option_map andb]; try reflexivity;
       destruct (contains_encoded_slash (l_rawpath L)); reflexivity.
   Qed.
 
@@ -1084,6 +1136,7 @@ Section Main.
   (** the guards of one logical request: those of every read the HTTP run makes, of the
       encoded-slash check and of the hand-over *)
   Definition guards_fire (fx : fixes) (L : lreq) : bool :=
+    (negb (fx_F11 fx) && g_F11 L) ||
     match find (lookup_of (build_http L)) with
     | None => false
     | Some (rl, caps) =>
@@ -1098,11 +1151,14 @@ Section Main.
     wf_lreqb L = true -> guards_fire fx L = false ->
     exec_http decode find L = exec_envoy decode find fx L.
   Proof.
-    intros W G. unfold guards_fire in G. unfold exec_http, exec_envoy, execute.
-    pose proof (same_lookup (fx_F4 fx) L W) as SL.
+    intros W G. unfold guards_fire in G. apply orb_false_iff in G as [G11 G].
+    assert (G11' : fx_F11 fx || negb (g_F11 L) = true).
+    { destruct (fx_F11 fx); [reflexivity|]. cbn [negb andb] in G11. rewrite G11. reflexivity. }
+    unfold exec_http, exec_envoy, execute.
+    pose proof (same_lookup (fx_F4 fx) (fx_F11 fx) L W G11') as SL.
     destruct (find (lookup_of (build_http L))) as [[rl caps]|] eqn:F.
     - rewrite (mech_view_http find L rl caps W F).
-      rewrite SL in F. rewrite (mech_view_envoy find (fx_F1 fx) (fx_F4 fx) L rl caps F).
+      rewrite SL in F. rewrite (mech_view_envoy find (fx_F1 fx) (fx_F4 fx) (fx_F11 fx) L rl caps W G11' F).
       apply orb_false_iff in G as [G4 G]. cbv zeta in G.
       apply orb_false_iff in G as [G G5]. apply orb_false_iff in G as [Gq G3].
       destruct (g_F4_decision (r_slashes rl) L) eqn:D4.
@@ -1124,7 +1180,7 @@ Section Main.
   Proof.
     intros W G. unfold serve_decision, serve_proxy, serve_envoy.
     rewrite <- (same_execution fx L W G).
-    unfold guards_fire in G. unfold exec_http, execute in *.
+    unfold guards_fire in G. apply orb_false_iff in G as [_ G]. unfold exec_http, execute in *.
     destruct (find (lookup_of (build_http L))) as [[rl caps]|] eqn:F.
     - rewrite (mech_view_http find L rl caps W F) in *.
       apply orb_false_iff in G as [G4 G]. cbv zeta in G.
@@ -1147,30 +1203,32 @@ Section Main.
   (** C13, the view: whatever the pipeline of the matched rule may ask, outside the guards the answer
       is the same (this covers reads that the run at hand does not make) *)
   Theorem same_view fx L rl caps q :
-    wf_lreqb L = true -> find (lookup_of (build_http L)) = Some (rl, caps) ->
+    wf_lreqb L = true -> fx_F11 fx || negb (g_F11 L) = true ->
+    find (lookup_of (build_http L)) = Some (rl, caps) ->
     g_F4_decision (r_slashes rl) L = false ->
     guard_query decode fx (r_slashes rl) caps L q = false ->
     exists vh ve, mech_view find true (build_http L) = inr (rl, vh) /\
-                  mech_view find (fx_F1 fx) (build_envoy (fx_F4 fx) (mk_envoy L)) = inr (rl, ve) /\
+                  mech_view find (fx_F1 fx) (build_envoy (fx_F4 fx) (norm_envoy (fx_F11 fx) (mk_envoy L))) = inr (rl, ve) /\
                   answer (acc_http decode L) vh q = answer (acc_envoy decode fx (mk_envoy L)) ve q.
   Proof.
-    intros W F G4 Gq.
+    intros W G11 F G4 Gq.
     exists (http_mech L (r_slashes rl) caps), (envoy_mech (fx_F1 fx) (fx_F4 fx) L (r_slashes rl) caps).
     rewrite (mech_view_http find L rl caps W F), G4.
-    rewrite (same_lookup (fx_F4 fx) L W) in F.
-    rewrite (mech_view_envoy find (fx_F1 fx) (fx_F4 fx) L rl caps F), G4, andb_false_r.
+    rewrite (same_lookup (fx_F4 fx) (fx_F11 fx) L W G11) in F.
+    rewrite (mech_view_envoy find (fx_F1 fx) (fx_F4 fx) (fx_F11 fx) L rl caps W G11 F), G4, andb_false_r.
     repeat split. apply answer_agree; assumption.
   Qed.
 
   (** the encoded-slash check itself: with the repaired URL construction it rejects at all entry points alike *)
-  Theorem slash_check_agrees fixed1 L rl caps :
-    wf_lreqb L = true -> find (lookup_of (build_http L)) = Some (rl, caps) ->
+  Theorem slash_check_agrees fixed1 fixed11 L rl caps :
+    wf_lreqb L = true -> fixed11 || negb (g_F11 L) = true ->
+    find (lookup_of (build_http L)) = Some (rl, caps) ->
     g_F4_decision (r_slashes rl) L = true ->
     mech_view find true (build_http L) = inl EArgument /\
-    mech_view find fixed1 (build_envoy true (mk_envoy L)) = inl EArgument.
+    mech_view find fixed1 (build_envoy true (norm_envoy fixed11 (mk_envoy L))) = inl EArgument.
   Proof.
-    intros W F G4. rewrite (mech_view_http find L rl caps W F), G4.
-    rewrite (same_lookup true L W) in F. rewrite (mech_view_envoy find fixed1 true L rl caps F), G4.
+    intros W G11 F G4. rewrite (mech_view_http find L rl caps W F), G4.
+    rewrite (same_lookup true fixed11 L W G11) in F. rewrite (mech_view_envoy find fixed1 true fixed11 L rl caps W G11 F), G4.
     split; reflexivity.
   Qed.
 End Main.
@@ -1182,18 +1240,19 @@ Proof. intro H. induction l as [|x l IH]; [reflexivity|]. cbn. rewrite H, IH. re
     (C13-F8) remain guarded *)
 Lemma all_fixed_guards decode s caps L q :
   guard_query decode all_fixed s caps L q = g_F5_query L q || g_F8_query q.
-Proof. unfold guard_query. cbn [all_fixed fx_F1 fx_F2 fx_F4 fx_F6 fx_F7 fx_F9 negb andb orb]. rewrite !orb_false_r. reflexivity. Qed.
+Proof. unfold guard_query. cbn [all_fixed fx_F1 fx_F2 fx_F4 fx_F6 fx_F7 fx_F9 fx_F11 negb andb orb]. rewrite !orb_false_r. reflexivity. Qed.
 
 (** the tree as it is: additionally the conveyance of the body (C13-F9) *)
 Lemma repo_guards decode s caps L q :
   guard_query decode repo_now s caps L q = g_F5_query L q || g_F8_query q || g_F9_query L q.
 Proof.
-  unfold guard_query. cbn [repo_now set_F9 all_fixed fx_F1 fx_F2 fx_F4 fx_F6 fx_F7 fx_F9 negb andb orb].
+  unfold guard_query. cbn [repo_now set_F9 set_F11 all_fixed fx_F1 fx_F2 fx_F4 fx_F6 fx_F7 fx_F9 fx_F11 negb andb orb].
   rewrite !orb_false_r. reflexivity.
 Qed.
 
 Lemma repo_guards_fire decode find L :
   guards_fire decode find repo_now L =
+  g_F11 L ||
   match find (lookup_of (build_http L)) with
   | None => false
   | Some (rl, caps) =>
@@ -1202,8 +1261,10 @@ Lemma repo_guards_fire decode find L :
     g_F3_adds true (snd (run_prog ans (rule_prog rl))) || g_F5_adds (snd (run_prog ans (rule_prog rl)))
   end.
 Proof.
-  unfold guards_fire. destruct (find (lookup_of (build_http L))) as [[rl caps]|]; [|reflexivity].
-  cbn [repo_now set_F9 all_fixed fx_F3 fx_F4 negb andb orb]. cbv zeta.
+  unfold guards_fire.
+  change (fx_F11 repo_now) with false. change (fx_F4 repo_now) with true. change (fx_F3 repo_now) with true.
+  cbn [negb andb orb]. f_equal.
+  destruct (find (lookup_of (build_http L))) as [[rl caps]|]; [|reflexivity]. cbv zeta.
   f_equal. f_equal. apply existsb_ext_all. intro q. apply repo_guards.
 Qed.
 
@@ -1220,7 +1281,7 @@ Definition w_find (path : string) (rl : rule) (caps : list (string * string)) : 
 
 Definition w_req (method path : string) (hdrs : list (string * string)) (body : string) : lreq :=
   {| l_method := method; l_tls := false; l_host := "a.example.com"; l_rawpath := path; l_query := "";
-     l_hdrs := hdrs; l_body := body; l_peer := "10.0.0.1"; l_pack := PackRaw |}.
+     l_hdrs := hdrs; l_body := body; l_peer := "10.0.0.1"; l_pack := PackRaw; l_qpath := false |}.
 
 Definition w_rule (id : string) (s : slashes) (authz : option cond) (steps : list step) : rule :=
   {| r_id := id; r_slashes := s; r_prog := pipeline_prog authz steps; r_on_error := None |}.
@@ -1386,7 +1447,7 @@ Definition nv_req : lreq :=
   {| l_method := "POST"; l_tls := true; l_host := "a.example.com:8443"; l_rawpath := "/files/2024%2Freport.pdf"; l_query := "v=2";
      l_hdrs := [("x-role", "admin"); ("X-ROLE", "lead"); ("Cookie", "sid=123; theme=dark"); ("content-type", "application/json");
                 ("Content-Length", "13")];
-     l_body := "{""user"":""u""}"; l_peer := "10.0.0.1"; l_pack := PackBoth |}.
+     l_body := "{""user"":""u""}"; l_peer := "10.0.0.1"; l_pack := PackBoth; l_qpath := false |}.
 Definition nv_find := w_find "/files/2024%2Freport.pdf" nv_rule [("name", "2024%2Freport.pdf")].
 
 Example nonvacuous :
@@ -1405,7 +1466,7 @@ Definition nv2_rule : rule :=
 Definition nv2_req : lreq :=
   {| l_method := "POST"; l_tls := true; l_host := "a.example.com:8443"; l_rawpath := "/files/report.pdf"; l_query := "v=2";
      l_hdrs := [("content-type", "application/json"); ("Content-Length", "13")];
-     l_body := "{""user"":""u""}"; l_peer := "10.0.0.1"; l_pack := PackBoth |}.
+     l_body := "{""user"":""u""}"; l_peer := "10.0.0.1"; l_pack := PackBoth; l_qpath := false |}.
 Definition nv2_find := w_find "/files/report.pdf" nv2_rule [("name", "report.pdf")].
 Example nonvacuous_pinned :
   guards_fire w_decode nv2_find pinned nv2_req = false /\
@@ -1418,7 +1479,7 @@ Proof. split; vm_compute; reflexivity. Qed.
 Definition w9_req : lreq :=
   {| l_method := "POST"; l_tls := false; l_host := "a.example.com"; l_rawpath := "/c8/lit"; l_query := "";
      l_hdrs := [("Content-Type", "application/json"); ("Content-Length", "12")];
-     l_body := "{""user"":1}"; l_peer := "10.0.0.1"; l_pack := PackBody |}.
+     l_body := "{""user"":1}"; l_peer := "10.0.0.1"; l_pack := PackBody; l_qpath := false |}.
 Lemma F9_refuted :
   wf_lreqb w9_req = true /\ g_F9_query w9_req QBody = true /\ guards_fire w_decode w7_find repo_now w9_req = true /\
   s_handover (serve_decision w_decode w7_find repo_now w9_req) = Some {| ho_headers := [("X-Body", "{""user"":1}")]; ho_cookies := [] |} /\
@@ -1599,10 +1660,32 @@ Qed.
 (** C13-F10, witnesses: sorted keys, "+" for %20, a pair with ";" dropped *)
 Definition w10_req (q : string) : lreq :=
   {| l_method := "GET"; l_tls := true; l_host := "a.example.com"; l_rawpath := "/t/abc"; l_query := q;
-     l_hdrs := []; l_body := ""; l_peer := "10.0.0.1"; l_pack := PackRaw |}.
+     l_hdrs := []; l_body := ""; l_peer := "10.0.0.1"; l_pack := PackRaw; l_qpath := false |}.
 Lemma F10_refuted :
   wf_lreqb (w10_req "b=2&a=1") = true /\ g_F10 (w10_req "b=2&a=1") = true /\
   v_query (view_direct (w10_req "b=2&a=1")) = "b=2&a=1" /\ v_query (view_tp (w10_req "b=2&a=1")) = "a=1&b=2" /\
   v_query (view_tp (w10_req "q=a%20b")) = "q=a+b" /\ v_query (view_tp (w10_req "a=1;b=2")) = "" /\
   g_F10 (w10_req "a=1&b=2") = false /\ url_parts (view_tp (w10_req "a=1&b=2")) = url_parts (view_direct (w10_req "a=1&b=2")).
+Proof. repeat split; vm_compute; reflexivity. Qed.
+
+(** C13-F11 (open): Envoy conveys the request target the documented way (query inside [path]): grpcv3
+    looks the rule up with "?x=1" glued to the last segment — a wildcard swallows it into the capture,
+    a literal route misses — and the query is empty; the candidate repair removes the difference *)
+Definition w11_req : lreq :=
+  {| l_method := "GET"; l_tls := false; l_host := "a.example.com"; l_rawpath := "/c0/abc"; l_query := "x=1";
+     l_hdrs := []; l_body := ""; l_peer := "10.0.0.1"; l_pack := PackRaw; l_qpath := true |}.
+Definition w11_rule := w_rule "c0" SOff None [hdr_step "X-User" (TEcho (QCapture "name")); hdr_step "X-Q" (TEcho QQuery)].
+Definition w11_find : lview -> option (rule * list (string * string)) :=
+  fun lv => if String.eqb (lk_path lv) "/c0/abc" then Some (w11_rule, [("name", "abc")])
+            else if String.eqb (lk_path lv) "/c0/abc?x=1" then Some (w11_rule, [("name", "abc?x=1")]) else None.
+Definition w11_find_literal : lview -> option (rule * list (string * string)) :=
+  fun lv => if String.eqb (lk_path lv) "/c0/abc" then Some (w11_rule, []) else None.
+Lemma F11_refuted :
+  wf_lreqb w11_req = true /\ g_F11 w11_req = true /\ guards_fire w_decode w11_find repo_now w11_req = true /\
+  s_handover (serve_decision w_decode w11_find repo_now w11_req) = Some {| ho_headers := [("X-User", "abc"); ("X-Q", "x=1")]; ho_cookies := [] |} /\
+  s_handover (serve_envoy w_decode w11_find repo_now w11_req) = Some {| ho_headers := [("X-User", "abc?x=1"); ("X-Q", "")]; ho_cookies := [] |} /\
+  s_err (serve_decision w_decode w11_find_literal repo_now w11_req) = None /\
+  s_err (serve_envoy w_decode w11_find_literal repo_now w11_req) = Some ENoRule /\
+  guards_fire w_decode w11_find all_fixed w11_req = false /\
+  serve_decision w_decode w11_find all_fixed w11_req = serve_envoy w_decode w11_find all_fixed w11_req.
 Proof. repeat split; vm_compute; reflexivity. Qed.
